@@ -260,7 +260,7 @@ SPEC = {
     'outside': ['pattern lists longer than 4 (+1 appended) entries'],
     'harnesses': [
         {'name': 'flt', 'fn': 'flt', 'params': _P, 'call': _C,
-         'bounds': {'quick': '1 <= n <= 2 and perm == 0 and ' + _RANGE, 'thorough': '1 <= n <= 3 and ' + _RANGE},
+         'bounds': {'quick': '1 <= n <= 2 and perm == 0 and ' + _RANGE, 'thorough': '1 <= n <= 3 and (n < 3 or perm <= 1) and ' + _RANGE},
          'slices': {'quick': ['xi == %d and n == %d' % (x, n) for x in range(5) for n in (1, 2)],
                     'thorough': ['xi == %d and n == %d and i0 == %d' % (x, n, i) for x in range(5) for n in (1, 2, 3) for i in range(5)]},
          'reach': 'flt_reach', 'reach_bounds': {'quick': 'n == 2 and perm == 0 and xi == 0 and ' + _RANGE,
